@@ -30,6 +30,21 @@ func Equal(a, b any) bool { //nolint: gocyclo
 			}
 		}
 		return true
+	case reflect.Map:
+		// maps with the same keys and equal values (whatever Go types hold the values)
+		if ra.Type().Key() != rb.Type().Key() {
+			return equalInterfaces(a, b)
+		}
+		if ra.Len() != rb.Len() {
+			return false
+		}
+		for _, k := range ra.MapKeys() {
+			vb := rb.MapIndex(k)
+			if !vb.IsValid() || !Equal(ra.MapIndex(k).Interface(), vb.Interface()) {
+				return false
+			}
+		}
+		return true
 	case reflect.Bool:
 		return ra.Bool() == rb.Bool()
 	case reflect.Int, reflect.Int8, reflect.Int16, reflect.Int32, reflect.Int64:
